@@ -360,6 +360,29 @@ fn run_timing(l: &[Sx]) -> Sx {
     let stop = Arc::new(AtomicBool::new(false));
     let svc = configs().remove(0).sx;
     let built = build_service_opts(&svc, false);
+    let has_opt = |name: &str| l.iter().skip(6).any(|m| m.as_list().map(|m| m.first().and_then(|a| a.as_atom()) == Some(name)).unwrap_or(false));
+    // a stale entry at the socket path (left behind by an instance that was killed)
+    if has_opt("stale") {
+        let stale = std::os::unix::net::UnixListener::bind(&path);
+        drop(stale);
+    }
+    // a second listener on another address sharing the same stop flag
+    let twin = if has_opt("twin") && stop_at.is_some() {
+        let addr2 = fresh_addr("unix");
+        let stop2 = stop.clone();
+        let built2 = build_service_opts(&svc, false);
+        Some(thread::spawn(move || {
+            let r = varlink::listen(
+                built2.service,
+                &addr2,
+                &varlink::ListenConfig { initial_worker_threads: 1, max_worker_threads: 2, idle_timeout: 0, stop_listening: Some(stop2) },
+            );
+            (r.is_ok(), Instant::now())
+        }))
+    } else {
+        None
+    };
+    let stale_wait = has_opt("stale");
     // make sure the socket exists before the clock starts: bind happens inside listen(), so start
     // the clock when the path appears
     let t_server = {
@@ -392,12 +415,19 @@ fn run_timing(l: &[Sx]) -> Sx {
     while !std::path::Path::new(&path).exists() && wait_start.elapsed() < Duration::from_secs(3) {
         thread::sleep(Duration::from_millis(1));
     }
+    if stale_wait {
+        // the path existed before: give the listener a moment to replace the stale entry
+        thread::sleep(Duration::from_millis(60));
+    }
     let t0 = Instant::now();
+    let fired = Arc::new(AtomicBool::new(false));
     if let Some(s) = stop_at {
         let stop = stop.clone();
+        let fired = fired.clone();
         thread::spawn(move || {
             thread::sleep(Duration::from_millis(s));
             stop.store(true, Ordering::SeqCst);
+            fired.store(true, Ordering::SeqCst);
         });
     }
     let mut hs = Vec::new();
@@ -476,6 +506,20 @@ fn run_timing(l: &[Sx]) -> Sx {
         obs.push(sx::list(vec![sx::atom("c"), sx::nat(a as usize), sx::boolean(f), sx::boolean(c), sx::nat(e as usize)]));
     }
     let _ = std::fs::remove_file(&path);
+    // the flag belongs to the caller: listen() only reads it
+    obs.push(sx::list(vec![sx::atom("flag"), sx::boolean(!fired.load(Ordering::SeqCst) || stop.load(Ordering::SeqCst))]));
+    if let Some(tw) = twin {
+        let end = Instant::now() + Duration::from_millis(3000);
+        while !tw.is_finished() && Instant::now() < end {
+            thread::sleep(Duration::from_millis(5));
+        }
+        if tw.is_finished() {
+            let (ok, at) = tw.join().unwrap_or((false, Instant::now()));
+            obs.push(sx::list(vec![sx::atom("twin"), sx::atom(if ok { "ok" } else { "err" }), sx::nat(at.saturating_duration_since(t0).as_millis() as usize)]));
+        } else {
+            obs.push(sx::list(vec![sx::atom("twin"), sx::atom("running"), sx::nat(t0.elapsed().as_millis() as usize)]));
+        }
+    }
     sx::tagged("tobs", obs)
 }
 
@@ -487,6 +531,7 @@ fn run_activated(l: &[Sx]) -> Sx {
     use std::os::unix::io::AsRawFd;
     use std::os::unix::process::CommandExt;
     let idle = l[1].as_usize().unwrap_or(1);
+    let nonblock = l.get(2).and_then(|a| a.as_atom()) == Some("nonblock");
     let n = COUNTER.fetch_add(1, Ordering::SeqCst);
     let dir = format!("{}/act-{}-{}", work_dir(), std::process::id(), n);
     let _ = std::fs::remove_dir_all(&dir);
@@ -497,6 +542,10 @@ fn run_activated(l: &[Sx]) -> Sx {
     let specfile = format!("{}/spec", dir);
     std::fs::write(&specfile, spec.to_sx().render()).unwrap();
     let fd = listener.as_raw_fd();
+    if nonblock {
+        // as a supervisor may hand it over (the flag lives in the open file description, so the service inherits it)
+        let _ = listener.set_nonblocking(true);
+    }
     let mut cmd = std::process::Command::new("sh");
     cmd.arg("-c")
         .arg("LISTEN_PID=$$ exec \"$0\" \"$@\"")
@@ -527,6 +576,11 @@ fn run_activated(l: &[Sx]) -> Sx {
     }
     let child = cmd.spawn().expect("spawn helper");
     let mut guard = world::ChildGuard::new(child);
+    if idle == 0 {
+        // let the service reach its accept loop before anybody connects (a pending connection hides a
+        // listener that does not wait)
+        thread::sleep(Duration::from_millis(400));
+    }
     // one client, so that we know the activated socket is really being served
     let served = match connect(&format!("unix:{}", path)) {
         Some(mut c) => {
@@ -549,7 +603,8 @@ fn run_activated(l: &[Sx]) -> Sx {
         }
         None => false,
     };
-    let exited = guard.wait_timeout(Duration::from_millis(idle as u64 * 1000 + 6000)).is_some();
+    // without an idle timeout the service is expected to stay: observed for 1.2 s
+    let exited = guard.wait_timeout(Duration::from_millis(if idle == 0 { 1200 } else { idle as u64 * 1000 + 6000 })).is_some();
     let exists = std::path::Path::new(&path).exists();
     drop(guard);
     drop(listener);
@@ -702,10 +757,28 @@ impl Suite for ListenSuite {
             cases.push(timing_case(0, Some(420), 1, 4, &[(150, 1200), (435, 100)], "arrival-inside-the-slice-after-the-flag"));
             cases.push(timing_case(2, Some(420), 1, 4, &[(150, 1200), (435, 100)], "arrival-inside-the-slice-after-the-flag"));
             cases.push(Case { input: sx::tagged("listen-activated", vec![sx::nat(1)]), tags: vec!["activated-socket-path-survives".into()] });
+            cases.push(Case { input: sx::tagged("listen-activated", vec![sx::nat(1), sx::atom("nonblock")]), tags: vec!["activated-nonblocking-socket".into()] });
+            cases.push(Case { input: sx::tagged("listen-activated", vec![sx::nat(0), sx::atom("nonblock")]), tags: vec!["activated-nonblocking-socket-no-timeout".into()] });
+            cases.push(Case { input: sx::tagged("listen-activated", vec![sx::nat(0), sx::atom("block")]), tags: vec!["activated-socket-no-timeout".into()] });
             cases.push(timing_case(0, Some(450), 1, 4, &[], "flag-only"));
             cases.push(timing_case(0, Some(0), 1, 4, &[], "flag-set-before-start"));
             cases.push(timing_case(2, Some(450), 1, 4, &[], "flag-before-timeout"));
             cases.push(timing_case(1, None, 1, 1, &[(100, 600), (200, 100)], "queued-behind-max"));
+            // a stale entry at the socket path; two listeners sharing one stop flag
+            for (idle, stop) in [(1usize, None), (0, Some(450usize)), (2, Some(450))] {
+                let mut c = timing_case(idle, stop, 1, 4, &[(150, 100)], "stale-entry-at-the-socket-path");
+                if let Sx::List(l) = &mut c.input {
+                    l.push(sx::tagged("stale", vec![]));
+                }
+                cases.push(c);
+            }
+            for idle in [0usize, 2] {
+                let mut c = timing_case(idle, Some(450), 1, 4, &[(150, 100)], "two-listeners-sharing-the-stop-flag");
+                if let Sx::List(l) = &mut c.input {
+                    l.push(sx::tagged("twin", vec![]));
+                }
+                cases.push(c);
+            }
             // overlapping connections of which one ends early: the other one is still being served when the idle
             // period after the first one's end is over
             cases.push(timing_case(1, None, 1, 4, &[(100, 300), (150, 1900), (1550, 100)], "overlapping-one-ends-early"));
